@@ -27,7 +27,7 @@ type Program struct {
 	Prog       *ssa.Program
 	Fset       *token.FileSet
 	Pkgs       map[string]*ssa.Package
-	Overrides  map[string]*ssa.Function
+	Overrides  map[string]map[string]*ssa.Function // target -> declaring harness package -> replacement
 	OverrideList []string
 	intrinsics map[string]Intrinsic
 	LoadTime   time.Duration
@@ -100,7 +100,7 @@ func Load(repoDir, harnessDir string, pkgPaths []string) (*Program, error) {
 		return nil, fmt.Errorf("load errors:\n%s", strings.Join(errs, "\n"))
 	}
 	prog, _ := ssautil.AllPackages(pkgs, ssa.InstantiateGenerics)
-	P := &Program{Prog: prog, Fset: prog.Fset, Pkgs: map[string]*ssa.Package{}, Overrides: map[string]*ssa.Function{}, RepoDir: repoDir, pkgsRaw: pkgs}
+	P := &Program{Prog: prog, Fset: prog.Fset, Pkgs: map[string]*ssa.Package{}, Overrides: map[string]map[string]*ssa.Function{}, RepoDir: repoDir, pkgsRaw: pkgs}
 	for _, p := range prog.AllPackages() {
 		P.Pkgs[p.Pkg.Path()] = p
 	}
@@ -124,13 +124,30 @@ func Load(repoDir, harnessDir string, pkgPaths []string) (*Program, error) {
 			if fn == nil {
 				return nil, fmt.Errorf("override target %s: harness func %s not found in %s", target, repl, pkgPath)
 			}
-			P.Overrides[target] = fn
+			if P.Overrides[target] == nil {
+				P.Overrides[target] = map[string]*ssa.Function{}
+			}
+			P.Overrides[target][pkgPath] = fn
 			P.OverrideList = append(P.OverrideList, target+" -> "+pkgPath+"."+repl)
 		}
 	}
 	sort.Strings(P.OverrideList)
 	P.LoadTime = time.Since(t0)
 	return P, nil
+}
+
+// override returns the replacement of a dependency function that is in force for a harness of package entryPkg: overrides
+// are scoped to the harness package that declares them (plus the global ones of the zzverif package), so that harnesses of
+// different packages loaded in one run do not redirect each other's dependencies.
+func (P *Program) override(name, entryPkg string) *ssa.Function {
+	m := P.Overrides[name]
+	if m == nil {
+		return nil
+	}
+	if fn := m[entryPkg]; fn != nil {
+		return fn
+	}
+	return m[HaqqMod+"/zzverif"]
 }
 
 // noteFunc records the repository functions (not harness code) that were executed symbolically.
@@ -236,4 +253,43 @@ func (P *Program) scanProtoNames() {
 			}
 		}
 	}
+}
+
+// ReachLabels lists the constant labels of the zzverif.Reach calls in a harness function (including its closures): the
+// reachability witnesses every run of the harness is expected to hit.
+func ReachLabels(fn *ssa.Function) []string {
+	seen := map[string]bool{}
+	var walk func(f *ssa.Function)
+	done := map[*ssa.Function]bool{}
+	walk = func(f *ssa.Function) {
+		if f == nil || done[f] {
+			return
+		}
+		done[f] = true
+		for _, b := range f.Blocks {
+			for _, in := range b.Instrs {
+				c, ok := in.(ssa.CallInstruction)
+				if !ok {
+					continue
+				}
+				cf := c.Common().StaticCallee()
+				if cf == nil || cf.Pkg == nil || cf.Pkg.Pkg.Path() != HaqqMod+"/zzverif" || cf.Name() != "Reach" {
+					continue
+				}
+				if k, ok := c.Common().Args[0].(*ssa.Const); ok && k.Value != nil {
+					seen[constant.StringVal(k.Value)] = true
+				}
+			}
+		}
+		for _, a := range f.AnonFuncs {
+			walk(a)
+		}
+	}
+	walk(fn)
+	var out []string
+	for k := range seen {
+		out = append(out, k)
+	}
+	sort.Strings(out)
+	return out
 }
